@@ -9,7 +9,7 @@
    workloads - not the depth - is what the configuration bounds.                               *)
 EXTENDS EudoxiaOps, SchedContracts, DagOps
 
-CONSTANTS Policy,        \* "naive" | "overbook" | "priority-pool" | "priority"
+CONSTANTS Policy,        \* "naive" | "overbook" | "priority-pool" | "priority" | "starter" (the scheduler written by `eudoxia init -s`)
           Cfg, Shapes, Prios, ArrTicks, NPipes, MaxTick
 VARIABLES s, tick, phase, priv, cmds, g, last, wl, arr, sim
 vars == <<s, tick, phase, priv, cmds, g, last, wl, arr, sim>>
@@ -33,7 +33,7 @@ NaivePop(st, q, rq, k) ==      \* inner while-loop for one pool: [st, q, rq, asg
   IF q = <<>> THEN [st |-> st, q |-> q, rq |-> rq, asg |-> <<>>]
   ELSE LET p == Head(q) IN
        IF Successful(st, p) \/ HasFailed(st, p) THEN NaivePop(st, Tail(q), rq, k)
-       ELSE LET ops == IF Cfg.multi THEN GetOps(st, p, FALSE)
+       ELSE LET ops == IF Cfg.multi /\ Policy # "starter" THEN GetOps(st, p, FALSE)     \* the starter template of `eudoxia init` always takes one ready operator
                        ELSE (IF GetOps(st, p, TRUE) = <<>> THEN <<>> ELSE <<GetOps(st, p, TRUE)[1]>>) IN
             IF ops = <<>> THEN NaivePop(st, Tail(q), Append(rq, p), k)
             ELSE LET a == [ops |-> ops, cpu |-> st.pools[k].acpu, ram |-> st.pools[k].aram, pool |-> k, prio |-> wl[p].prio] IN
@@ -188,9 +188,9 @@ PrRound(st, pv, new, results) ==
   IN [st |-> r3.st, priv |-> [qry |-> r1.keep, inter |-> r2.keep, batch |-> r3.keep, susp |-> sq3], sus |-> victims, asg |-> r3.asg]
 
 (* ------------------------------------ dispatch ------------------------------------ *)
-PolicyInit == CASE Policy = "naive" -> NaiveInit [] Policy = "overbook" -> OverbookInit [] Policy = "priority-pool" -> PPInit [] Policy = "priority" -> PrInit
+PolicyInit == CASE Policy \in {"naive", "starter"} -> NaiveInit [] Policy = "overbook" -> OverbookInit [] Policy = "priority-pool" -> PPInit [] Policy = "priority" -> PrInit
 PolicyRound(st, pv, new, results) ==
-  CASE Policy = "naive" -> NaiveRound(st, pv, new, results) [] Policy = "overbook" -> OverbookRound(st, pv, new, results)
+  CASE Policy \in {"naive", "starter"} -> NaiveRound(st, pv, new, results) [] Policy = "overbook" -> OverbookRound(st, pv, new, results)
     [] Policy = "priority-pool" -> PPRound(st, pv, new, results) [] Policy = "priority" -> PrRound(st, pv, new, results)
 
 ViewOf(st) == [ost |-> st.ost,
